@@ -1043,6 +1043,7 @@ def plane_cylinder_wrapper(
     cylinder_axis,
     cylinder.size[0],  # radius
     cylinder.size[1],  # half_height
+    wp.vec3(cylinder.rot[0, 0], cylinder.rot[1, 0], cylinder.rot[2, 0]),  # local x axis
   )
 
   frame = make_frame(normal)
